@@ -311,11 +311,18 @@ func legacyScalar(c *Ctx, fd protoreflect.FieldDescriptor) protoreflect.Value {
 	case protoreflect.BytesKind:
 		return protoreflect.ValueOfBytes(c.Bytes(c.Intn(6)))
 	case protoreflect.EnumKind:
+		// an enum known only through a struct tag is open and has the single value 0: numbers
+		// 0..2 are drawn for it (the intended-schema pairs declare exactly these)
 		vs := fd.Enum().Values()
-		if vs.Len() == 0 {
-			return protoreflect.ValueOfEnum(protoreflect.EnumNumber(c.Intn(3)))
+		n := vs.Len()
+		if n < 3 && !fd.Enum().IsClosed() {
+			n = 3
 		}
-		return protoreflect.ValueOfEnum(vs.Get(c.Intn(vs.Len())).Number())
+		i := c.Intn(n)
+		if i >= vs.Len() {
+			return protoreflect.ValueOfEnum(protoreflect.EnumNumber(i))
+		}
+		return protoreflect.ValueOfEnum(vs.Get(i).Number())
 	}
 	panic("legacy: not a scalar kind: " + fd.Kind().String())
 }
@@ -955,6 +962,8 @@ func legacyEmptyOneof(c *Ctx) {
 func legacyAberrantPairs(c *Ctx, seed uint64) {
 	legacyPair(c, "aberrant/proto2", func() proto.Message { return legacyV2(new(LegacyAbMessage)) }, nil, seed)
 	legacyPair(c, "aberrant/proto3", func() proto.Message { return legacyV2(new(LegacyAb3Message)) }, nil, seed)
+	legacyAbSchemaPair(c, 0, seed)
+	legacyAbSchemaPair(c, 1, seed)
 }
 
 // what the tags of LegacyAbMessage / LegacyAb3Message mean, field by field
@@ -1223,10 +1232,12 @@ func famLegacy(c *Ctx) {
 	legacyAberrantDescriptors(c)
 	legacyEmptyOneof(c)
 	famLegacyTags(c)
+	legacyXCorpus(c)
+	legacyXLinkedCorpus(c)
 	for i := 0; i < c.N; i++ {
 		g := legacyGens[i%len(legacyGens)]
 		seed := c.U64()
-		switch c.Intn(8) {
+		switch c.Intn(10) {
 		case 0:
 			legacyShadowPair(c, g, seed)
 		case 1:
@@ -1235,6 +1246,10 @@ func famLegacy(c *Ctx) {
 			legacyUnknownPair(c, g)
 		case 3:
 			legacyRebuiltPair(c, g, seed)
+		case 4:
+			legacyXRandom(c, seed)
+		case 5:
+			legacyXLinkedRandom(c, seed)
 		default:
 			legacyPair(c, g.name, func() proto.Message { return legacyV2(g.newMsg()) }, g.xts, seed)
 		}
